@@ -540,6 +540,9 @@ Definition view_of (s : served) : view :=
   let q := sv_request s in
   mk_view (q_method q) (q_path q) (q_query q) (q_version q) (q_headers q) (q_authority q) (sv_body s).
 
+Definition result_view (o : outcome served) : outcome view :=
+  match o with Ok sv => Ok (view_of sv) | Err e => Err e | Panic => Panic end.
+
 (** The whole exchange as a function of the delivered bytes: head end, the parser on exactly
     the head, the body from what follows. *)
 Definition serve_spec (mode : N) (https : bool) (dh : option bytes) (max_len : nat) (limit : N) (ds : bytes)
@@ -560,6 +563,21 @@ Definition print_hline (h : hline) : bytes :=
 Definition print_head (g : greq) : bytes :=
   g_method g ++ [SP] ++ g_target g ++ [SP] ++ (if g_v11 g then v11 else v10) ++ crlf
   ++ concat (map print_hline (g_headers g)) ++ crlf.
+
+(** The same head with any mix of CRLF and bare-LF line ends (the code accepts both). *)
+Definition eol (lf : bool) : bytes := if lf then [LF] else [CR; LF].
+Definition print_hline_e (lf : bool) (h : hline) : bytes :=
+  hl_name h ++ [COLON] ++ repeat SP (hl_sp h) ++ hl_value h ++ eol lf.
+Fixpoint print_hlines_e (fl : list bool) (hs : list hline) : bytes :=
+  match hs with
+  | [] => []
+  | h :: hs' => print_hline_e (hd false fl) h ++ print_hlines_e (tl fl) hs'
+  end.
+(** [l0]: the request line ends in a bare LF; [fl]: which header lines do (missing flags = CRLF);
+    [lb]: the blank line is a bare LF. *)
+Definition print_head_e (l0 : bool) (fl : list bool) (lb : bool) (g : greq) : bytes :=
+  g_method g ++ [SP] ++ g_target g ++ [SP] ++ (if g_v11 g then v11 else v10) ++ eol l0
+  ++ print_hlines_e fl (g_headers g) ++ eol lb.
 
 Definition plain (c : N) : bool := negb ((c =? SP) || (c =? CR) || (c =? LF)).
 Definition visible_or_sp (c : N) : bool := (32 <=? c) && (c <? 127).
@@ -667,7 +685,8 @@ Definition run_headers (x : xval) : xval :=
   end.
 
 (** Spec components (oracle run).  Verdicts: (L (N 0) v) = the implementation must answer
-    exactly [v] on the compared fields; (L (N 1)) = it must answer an error;
+    exactly [v] on the compared fields (for h1.request: the six request fields, the body outcome
+    and the head end [k]: the early bytes must be the bytes of the stream from [k] on); (L (N 1)) = it must answer an error;
     (L (N 7)) = the property says nothing about this input (except: no panic). *)
 Definition d_hline (x : xval) : option hline :=
   match x with
@@ -691,7 +710,8 @@ Definition blind_verdict (mode : N) (https : bool) (dh : option bytes) (max_len 
   if forallb (fun b => (0 <? b)%nat) sched then
     match serve_spec mode https dh max_len limit (firstn (sum_sched sched) stream) with
     | Ok w => XL [XN 0; XL (x_request_fields (w_method w) (w_path w) (w_query w) (w_version w) (w_headers w) (w_authority w)
-                            ++ [x_outcome XB (w_body w)])]
+                            ++ [x_outcome XB (w_body w);
+                                match head_spec max_len (firstn (sum_sched sched) stream) with Ok k => x_nat k | _ => XN 0 end])]
     | Err e => XL [XN 1; XN e]
     | Panic => XL [XN 2]
     end
@@ -723,13 +743,13 @@ Definition run_request_spec (x : xval) : xval :=
                       if (length head + need <=? delivered)%nat then
                         XL [XN 0; XL (x_request_fields (x_method e) (x_path e) (x_query e) (x_version e)
                                                        (x_headers e) (x_authority e)
-                                      ++ [x_outcome XB (Ok (x_body e))])]
+                                      ++ [x_outcome XB (Ok (x_body e)); x_nat (length head)])]
                       else if (length head <=? delivered)%nat then
                         XL [XN 0; XL (x_request_fields (x_method e) (x_path e) (x_query e) (x_version e)
                                                        (x_headers e) (x_authority e)
                                       ++ [if mode =? 0 then x_outcome XB (Ok (firstn (delivered - length head) rest))
                                           else if mode =? 1 then x_outcome XB (Err E_TIMEDOUT)
-                                          else x_outcome XB (Err E_IO)])]
+                                          else x_outcome XB (Err E_IO); x_nat (length head)])]
                       else blind
                   end
                 else blind
